@@ -20,6 +20,9 @@ import ast
 from .model import ClassInfo, FuncInfo, ModuleRef, ExternalRef, ValueRef, walk_function, PKG
 
 
+PROTOCOL_NAMES = {'start', 'read', 'check_interrupts_paragraph', 'find'}
+
+
 class Site:
     def __init__(self, caller, node, callees, how):
         self.caller = caller
@@ -47,6 +50,11 @@ class CallGraph:
             for v in cfg.render_map.values():
                 if isinstance(v, FuncInfo):
                     self.render_targets.add(v)
+        self.registered = set()
+        for cfg in self.configs:
+            for c in list(getattr(cfg, 'block_types', [])) + list(getattr(cfg, 'span_types', [])):
+                if isinstance(c, ClassInfo):
+                    self.registered.add(c)
         self.type_constants = self._type_constants()
         self.unresolved = 0
         self.resolved = 0
@@ -172,6 +180,11 @@ class CallGraph:
                 self.sites.append(Site(fi, n, callees, how))
                 for c in callees:
                     self.add(fi, c)
+        # iteration protocol: for x in <object> may run __iter__/__next__ of package classes
+        for n in walk_function(fi.node):
+            if isinstance(n, (ast.For, ast.comprehension)) and isinstance(n.iter, ast.Name):
+                for m in self.by_name.get('__next__', []) + self.by_name.get('__iter__', []):
+                    self.add(fi, m)
         # function references in non-call position
         for n in walk_function(fi.node):
             if isinstance(n, (ast.Name, ast.Attribute)) and id(n) not in call_funcs and isinstance(getattr(n, 'ctx', None), ast.Load):
@@ -217,6 +230,8 @@ class CallGraph:
                 if isinstance(r, ClassInfo):
                     out.extend(self.ctor_edges(fi, r))
             return out, 'globals'
+        if isinstance(f, ast.Name) and f.id == 'next' and 'next' not in locals_:
+            return list(self.by_name.get('__next__', [])), 'next()'
         if isinstance(f, ast.Name):
             if f.id == 'super':
                 return [], 'super()'
@@ -276,6 +291,10 @@ class CallGraph:
                 return [], 'literal-method'
             # name-based fallback
             cands = list(self.by_name.get(f.attr, []))
+            if f.attr in PROTOCOL_NAMES and self.registered:
+                # the tokenizers dispatch these only on classes that are in a token list
+                cands = [c for c in cands if c.cls is None or c.cls not in self.token_classes
+                         or any(c.cls in r.mro() for r in self.registered)]
             return cands, 'by-name'
         return self.dynamic_ctor(fi), 'dynamic-expr'
 
